@@ -25,8 +25,8 @@ def run(R):
         R.saw(ad)
         rs = ad.calls(name='route_service')
         R.check(len(rs) == 1, 'C10.R1', 'route_service-site', site(ad), 'route_service sites: %d' % len(rs))
-        tpl, args = fmt_of(ad, ad.origin(rs[0][1]['args'][1])) if rs else (None, [])
-        R.eq(tpl, ['/', '{}', '/{*rest}'], 'C10.R1', 'route-pattern', site(ad, rs[0][0]) if rs else site(ad), 'route pattern template')
+        tpl, args = recipe_template(string_recipe(ad, rs[0][1]['args'][1])) if rs else (None, [])
+        R.eq(tpl, '/{}/{*rest}', 'C10.R1', 'route-pattern', site(ad, rs[0][0]) if rs else site(ad), 'route pattern, as literal pieces around the arguments (format!, concat or push_str spelling)')
         R.check(len(args) == 1 and (constdef(args[0]) or '').endswith('NamedService::NAME'), 'C10.R1', 'route-name=S::NAME', site(ad), 'pattern argument = %s' % (show(args[0]) if args else None))
         df = tonic.body(re.compile(r'<service::router::Routes as std::default::Default>::default$'))
         R.saw(df)
